@@ -61,3 +61,53 @@ fn c19_all_type_values() {
     kani::cover!(v == 0x3fff);
     kani::cover!(v == 0x8000);
 }
+
+#[kani::proof]
+#[kani::unwind(5)]
+fn c19_transaction_id_mask() {
+    let x: u128 = kani::any();
+    let t = TransactionId::from(x);
+    let back: u128 = t.into();
+    assert!(back == x & ((1u128 << 96) - 1), "C19:tid-keeps-low-96-bits");
+    assert!(back >> 96 == 0, "C19:tid-fits-96-bits");
+    // conversion is idempotent and equality is equality of the low 96 bits
+    assert!(TransactionId::from(back) == t, "C19:tid-idempotent");
+    let y: u128 = kani::any();
+    assert!((TransactionId::from(y) == t) == ((y ^ x) << 32 == 0), "C19:tid-eq-is-low96-eq");
+    kani::cover!(x >> 96 != 0);
+}
+
+/// A message with no attributes built by the real builder: type at 0..2, zero length, cookie at
+/// 4..8, id at 8..20; header decoder and full parser read the same values back.
+#[kani::proof]
+#[kani::unwind(5)]
+fn c19_header_layout() {
+    let c: u8 = kani::any();
+    kani::assume(c < 4);
+    let m: u16 = kani::any();
+    kani::assume(m <= 0xfff);
+    let x: u128 = kani::any();
+    let mt = MessageType::from_class_method(class_of(c), m);
+    let b = Message::builder(mt, x.into());
+    let mut buf = [0xa5u8; 24];
+    let n = b.write_into(&mut buf).unwrap();
+    assert!(n == 20, "C19:empty-message-is-20-bytes");
+    assert!(u16::from_be_bytes([buf[0], buf[1]]) == rfc_type(c, m), "C19:type-at-0");
+    assert!(buf[2] == 0 && buf[3] == 0, "C19:length-zero");
+    assert!(buf[4..8] == [0x21, 0x12, 0xa4, 0x42], "C19:cookie-at-4");
+    let low = x & ((1u128 << 96) - 1);
+    let idb = low.to_be_bytes();
+    let i: usize = kani::any();
+    kani::assume(i < 12);
+    assert!(buf[8 + i] == idb[4 + i], "C19:tid-at-8");
+    assert!(buf[20] == 0xa5, "C19:nothing-written-past-len");
+    let h = MessageHeader::from_bytes(&buf[..20]).unwrap();
+    assert!(h.transaction_id() == TransactionId::from(x), "C19:header-reads-tid");
+    assert!(h.get_type() == mt, "C19:header-reads-type");
+    assert!(h.data_length() == 0, "C19:header-reads-len");
+    let msg = Message::from_bytes(&buf[..20]).unwrap();
+    assert!(msg.transaction_id() == TransactionId::from(x), "C19:message-reads-tid");
+    assert!(msg.get_type() == mt, "C19:message-reads-type");
+    assert!(msg.class() == class_of(c) && msg.method() == m, "C19:message-class-method");
+    kani::cover!(x >> 96 != 0 && m == 0xabc);
+}
